@@ -197,6 +197,10 @@ func (m *UDPMuxDefault) GetConn(ufrag string, addr net.Addr) (net.PacketConn, er
 	}
 
 	muxedConn, ok := m.getConn(ufrag, isIPv6)
+	if ok && muxedConn.isClosed() {
+		// closed, but its close watcher has not unregistered it yet
+		ok = false
+	}
 	if !ok {
 		muxedConn = m.createMuxedConn(ufrag)
 		go func() {
